@@ -176,6 +176,14 @@ class Session:
             table.append((10, "workspace-add", lambda: ["workspace", "add", "../w2", "--name", "w2"] + (["-r", R()] if rng.random() < 0.7 else [])))
         if self.allow_forget and len(self.ws) == 2:
             table.append((2, "workspace-forget", lambda: ["workspace", "forget", rng.choice(["default", "w2"])]))
+        if self.mode == "c42" and len(self.ws) == 2:
+            # put a ref / an "imm" description on the other workspace's working-copy commit: it becomes
+            # immutable under most settings without getting a child, so its next snapshot must create one
+            other = [n for n in sorted(self.ws) if n != wsname][0] + "@"
+            table.append((6, "pin-other", lambda: rng.choice([
+                ["bookmark", "set", rng.choice(["b1", "m1"]), "-r", other, "--allow-backwards"],
+                ["tag", "set", rng.choice(["t1", "t2"]), "-r", other, "--allow-move"],
+                ["describe", "-r", other, "-m", "imm%d" % rng.randint(100, 999)]])))
         if self.mode == "c42":
             table = [(w * 2 if k in ("bookmark", "tag", "describe") else w, k, f) for w, k, f in table]
         total = sum(w for w, _, _ in table)
